@@ -539,10 +539,14 @@ func CheckC15(r *Report) {
 		byName[cfg.name()] = cfg
 		names = append(names, cfg.name())
 	}
-	names = append(names, "schedules")
+	names = append(names, "schedules", "long-histories")
 	r.RunScenarios(names, func(r *Report, name string) {
 		if name == "schedules" {
 			c15Sched(r)
+			return
+		}
+		if name == "long-histories" {
+			c15Long(r)
 			return
 		}
 		if !r.TimeLeft() {
@@ -553,7 +557,7 @@ func CheckC15(r *Report) {
 		kr := c15BFS(byName[name], r.Deadline)
 		r.AddK(kr, nil)
 	})
-	r.Rule += " || PLUS asynchronous eviction under the controlled scheduler: two user goroutines and the cache's event goroutine, every interleaving up to the preemption bound (no deadlock, callbacks exactly once and all delivered before Close returns)"
+	r.Rule += " || PLUS a fixed family of long deterministic histories (4 access patterns x 4 policies x capacities 2, 5, 100, 128; 300-6000 operations; TinyLFU with an admission window across its sample reset), every step judged by the same reference model || PLUS asynchronous eviction under the controlled scheduler: two user goroutines and the cache's event goroutine, every interleaving up to the preemption bound (no deadlock, callbacks exactly once and all delivered before Close returns)"
 }
 
 // c15RaceBody hammers asynchronous caches of every policy from three goroutines (free-running -race pass only).
@@ -727,4 +731,169 @@ func c15Sched(r *Report) {
 		res := explore.Explore(cfg, sc.body)
 		r.AddExplore(res, fmt.Sprintf("preemption bound %d", bound), time.Since(t0).Seconds())
 	}
+}
+
+// ---------------------------------------------------------------------------------
+// C15 (long histories): the breadth-first search cannot reach thresholds that need hundreds of operations (TinyLFU's
+// sample reset after 8 x capacity accesses with an admission window, the frequency sketch saturating, LFU frequency
+// lists with many buckets). A fixed family of long deterministic histories - every (policy, capacity, key-universe,
+// pattern) combination below, no sampling - is run with the reference model judging every single step.
+// ---------------------------------------------------------------------------------
+
+func c15LongOps(pattern string, universe, length int) []string {
+	k := func(i int) string { return fmt.Sprintf("k%d", ((i%universe)+universe)%universe) }
+	var ops []string
+	for i := 0; len(ops) < length; i++ {
+		switch pattern {
+		case "round-robin+hot":
+			ops = append(ops, "set:"+k(i), "get:"+k(0))
+		case "quadratic":
+			ops = append(ops, "set:"+k(i*i), "get:"+k(i*7))
+			if i%10 == 9 {
+				ops = append(ops, "del:"+k(i))
+			}
+		case "hot-pair+cold-sweep":
+			ops = append(ops, "get:"+k(0), "get:"+k(1), "set:"+k(0), "set:"+k(2+i%(universe-2)), "get:"+k(1))
+		case "sawtooth":
+			// fill upwards, read downwards: the recency order is reversed again and again
+			n := i % (2 * universe)
+			if n < universe {
+				ops = append(ops, "set:"+k(n))
+			} else {
+				ops = append(ops, "get:"+k(2*universe-1-n))
+			}
+			if i%97 == 96 {
+				ops = append(ops, "len")
+			}
+		}
+	}
+	return ops[:length]
+}
+
+func c15LongRun(cfg c15Config, ops []string) (viols []kViol, steps int) {
+	resetGlobals()
+	x := vsched.Run(vsched.RunOptions{MaxSteps: 50000000}, func() {
+		vsched.BeginQuiet()
+		w := newC15World(cfg)
+		vsched.Quiesce()
+		for i, op := range ops {
+			w.apply(op, false)
+			vsched.Quiesce()
+			steps++
+			if len(w.fails) > 0 {
+				for _, v := range w.fails {
+					v.Msg = fmt.Sprintf("step %d (%s): %s", i, op, v.Msg)
+					viols = append(viols, v)
+				}
+				return
+			}
+		}
+		w.apply("close", false)
+		vsched.Quiesce()
+		viols = append(viols, w.fails...)
+	})
+	switch {
+	case x.PanicVal != nil:
+		viols = append(viols, kViol{Prop: "C15", Sig: "panic-outside-op", Msg: fmt.Sprintf("panic: %v\n%s", x.PanicVal, x.PanicStack)})
+	case x.Deadlock != "":
+		viols = append(viols, kViol{Prop: "C15", Sig: "deadlock", Msg: "deadlock: " + x.Deadlock})
+	case x.Horizon:
+		viols = append(viols, kViol{Prop: "C15", Sig: "horizon", Msg: "step cap"})
+	}
+	return
+}
+
+type c15LongCase struct {
+	cfg      c15Config
+	pattern  string
+	universe int
+	length   int
+}
+
+func (lc c15LongCase) name() string {
+	return fmt.Sprintf("long/%s-cap%d-expiry=%v/%s-u%d-n%d", lc.cfg.Policy, lc.cfg.Cap, lc.cfg.Expiry, lc.pattern, lc.universe, lc.length)
+}
+
+func c15LongCases(thorough bool) []c15LongCase {
+	var out []c15LongCase
+	pats := []string{"round-robin+hot", "quadratic", "hot-pair+cold-sweep", "sawtooth"}
+	for _, pol := range []string{"lru", "lfu", "slru", "tinylfu"} {
+		for _, cp := range []int{2, 5} {
+			for _, pat := range pats {
+				out = append(out, c15LongCase{c15Config{Policy: pol, Cap: cp}, pat, cp + 3, 300})
+			}
+		}
+		out = append(out, c15LongCase{c15Config{Policy: pol, Cap: 3, Expiry: true}, "quadratic", 6, 300})
+	}
+	// TinyLFU with an admission window (capacity >= 100): across the sample reset (8 x capacity accesses)
+	for _, cp := range []int{100, 128} {
+		for _, pat := range pats {
+			n := 2200
+			if thorough {
+				n = 6000
+			}
+			out = append(out, c15LongCase{c15Config{Policy: "tinylfu", Cap: cp}, pat, cp + 30, n})
+		}
+	}
+	if thorough {
+		for _, pol := range []string{"lru", "lfu", "slru"} {
+			for _, pat := range pats {
+				out = append(out, c15LongCase{c15Config{Policy: pol, Cap: 100}, pat, 130, 3000})
+			}
+		}
+	}
+	return out
+}
+
+func c15Long(r *Report) {
+	t0 := time.Now()
+	n, steps := 0, 0
+	seen := map[string]bool{}
+	for _, lc := range c15LongCases(r.Thorough()) {
+		if !r.TimeLeft() {
+			r.Exhaustive = false
+			r.Caps = append(r.Caps, "long histories: time budget")
+			break
+		}
+		ops := c15LongOps(lc.pattern, lc.universe, lc.length)
+		viols, st := c15LongRun(lc.cfg, ops)
+		n++
+		steps += st
+		for _, v := range viols {
+			sig := v.Sig + "@C15/" + lc.name()
+			if !seen[v.Sig+lc.cfg.Policy] {
+				seen[v.Sig+lc.cfg.Policy] = true
+				r.Viols = append(r.Viols, Viol{Property: "C15", Harness: "C15/" + lc.name(), Sig: sig, Msg: v.Msg, Ops: []string{lc.name()}})
+			}
+		}
+	}
+	r.Runs = append(r.Runs, RunInfo{Name: "C15/long-histories", Executions: n, States: steps, Transitions: int64(steps), Exhaustive: true,
+		Bound: fmt.Sprintf("%d fixed long histories (4 patterns x policies x capacities incl. TinyLFU with an admission window across its sample reset), every step judged by the reference model", n), WallS: time.Since(t0).Seconds()})
+	r.Evaluations += steps
+	r.TracesValidated += steps
+	r.Transitions += int64(steps)
+}
+
+func c15LongReplay(name string) []string {
+	for _, lc := range c15LongCases(true) {
+		if lc.name() == name {
+			viols, _ := c15LongRun(lc.cfg, c15LongOps(lc.pattern, lc.universe, lc.length))
+			var out []string
+			for _, v := range viols {
+				out = append(out, v.Sig+": "+v.Msg)
+			}
+			return out
+		}
+	}
+	for _, lc := range c15LongCases(false) {
+		if lc.name() == name {
+			viols, _ := c15LongRun(lc.cfg, c15LongOps(lc.pattern, lc.universe, lc.length))
+			var out []string
+			for _, v := range viols {
+				out = append(out, v.Sig+": "+v.Msg)
+			}
+			return out
+		}
+	}
+	return []string{"unknown long history " + name}
 }
